@@ -14,7 +14,7 @@ except ImportError:  # pragma: no cover
 from ..fold import CannotFold, Folder
 from ..model import AnchorError, Program, dotted, last_attr, norm, parent, walk_no_nested
 from ..report import Check
-from .common import calls_in, returns_of
+from .common import calls_in, need_locals, returns_of
 
 # CPython: Objects/unicodeobject.c (PyUnicode_Format) and bytesobject.c (_PyBytes_FormatEx)
 STR_CONVERSIONS = set("diouxXeEfFgGcrsa%")
@@ -171,6 +171,7 @@ def r17_2(prog: Program, chk: Check) -> None:
     site = "pyanalyze/format_strings.py"
     chk.ob("R17.2", "format_strings::_FORMAT_STRING_CONVERSIONS", set(conv) == {"r", "s", "a"}, site, f"!conversions are {sorted(conv)}; str.format accepts exactly r, s, a")
     fn = prog.func("format_strings", "_parse_replacement_field")
+    need_locals(fn, "specials", "allowed_specials", "char")
     specials = None
     for n in walk_no_nested(fn):
         if isinstance(n, ast.Assign) and norm(n.targets[0]) == "specials" and isinstance(n.value, ast.Set):
@@ -184,13 +185,15 @@ def r17_2(prog: Program, chk: Check) -> None:
                     after_bang = {e.value for e in s.value.elts if isinstance(e, ast.Constant)}
     chk.ob("R17.2", "format_strings::_parse_replacement_field::after-conversion", after_bang == {":", "}"}, prog.site("format_strings", fn), "after a !conversion only ':' or '}' may follow")
     pc = prog.func("format_strings", "_parse_children")
+    need_locals(pc, "next_char", "char")
     t = norm(pc)
-    chk.ob("R17.2", "format_strings::_parse_children::escapes", "next_char == '{'" in t and "next_char == '}'" in t and "single '}' encountered" in t, prog.site("format_strings", pc), "{{ and }} are escapes; a lone } is an error")
+    chk.ob("R17.2", "format_strings::_parse_children::escapes", "next_char == '{'" in t and "next_char == '}'" in t and "state.add_error(" in t, prog.site("format_strings", pc), "{{ and }} are escapes; a lone } is an error")
 
 
 def r17_3(prog: Program, chk: Check) -> None:
     chk.rule("R17.3", "the result type of %-formatting is the type of the template", floor=1)
     fn = prog.func("format_strings", "check_string_format")
+    need_locals(fn, "format_str")
     rets = returns_of(fn)
     ok = bool(rets) and all(isinstance(r.value, ast.Tuple) and norm(r.value.elts[0]) == "TypedValue(type(format_str))" for r in rets)
     chk.ob("R17.3", "format_strings::check_string_format::result-type", ok, prog.site("format_strings", fn), "check_string_format must return TypedValue(type(format_str)): str % ... is str, bytes % ... is bytes")
